@@ -1,17 +1,23 @@
 #!/bin/bash
 # Applies every harmless refactor of /verif/selftest/green to a scratch worktree and expects every claimed check to stay green.
+# Runs against a frozen snapshot of the committed /verif (like eval_seeded.sh), so that editing /verif while it runs
+# cannot produce alarms that are artefacts of a half-updated framework.
 export GOFLAGS=-mod=mod GOPROXY=off GOSUMDB=off GOTOOLCHAIN=local
+SNAP=$(mktemp -d /tmp/verifsnap.XXXXXX)
+git -C /verif archive HEAD | tar -x -C $SNAP
+mkdir -p $SNAP/bin && (cd $SNAP/engine && go build -o $SNAP/bin/stfsvc .) || exit 2
 rc=0
-for d in /verif/selftest/green/*.diff; do
+for d in $SNAP/selftest/green/*.diff; do
   WT=/tmp/green_$$
   git -C /repo worktree remove --force $WT 2>/dev/null
   git -C /repo worktree add -q --detach $WT HEAD || exit 2
   (cd $WT && git apply $d && go build ./...) || { echo "$d: does not apply/build"; rc=2; git -C /repo worktree remove --force $WT; continue; }
-  for p in $(python3 -c "import json;print(' '.join(c['property_id'] for c in json.load(open('/verif/MANIFEST.json'))['checks']))"); do
-    out=$(STFS_OUT=/tmp/seedout STFS_REPO=$WT /verif/bin/stfsvc check $p 2>&1); r=$?
+  for p in $(python3 -c "import json;print(' '.join(c['property_id'] for c in json.load(open('$SNAP/MANIFEST.json'))['checks']))"); do
+    out=$(STFS_NO_REPLAY=1 STFS_VERIF=$SNAP STFS_OUT=$SNAP/scratch STFS_REPO=$WT $SNAP/bin/stfsvc check $p 2>&1); r=$?
     if [ $r -ne 0 ]; then echo "FALSE ALARM on $(basename $d): $p rc=$r"; echo "$out" | grep -E "VIOLATION|BROKEN" | head -3 | cut -c1-220; rc=1; fi
   done
   git -C /repo worktree remove --force $WT
 done
+rm -rf $SNAP
 [ $rc -eq 0 ] && echo "green corpus: no check raised an alarm"
 exit $rc
